@@ -70,6 +70,11 @@ ipv6prefix_str2ip(const char *value, size_t value_len, struct in6_addr *addr, ui
 
     /* it passed the pattern validation */
     pref_str = ly_strnchr(value, '/', value_len);
+    if (!pref_str) {
+        /* patterns are not checked when only storing the value */
+        return ly_err_new(err, LY_EVALID, LYVE_DATA, NULL, NULL, "Invalid IPv6 prefix \"%.*s\", missing the prefix length.",
+                (int)value_len, value);
+    }
     ly_strntou8(pref_str + 1, value_len - (pref_str + 1 - value), prefix);
 
     /* get just the network prefix */
